@@ -41,54 +41,58 @@ Inductive xpc :=
 | XDone.
 
 Inductive xev :=
-| XRecv (i : nat) (v : Z)
-| XCancel (i : nat)
+| XRecv (i : nat) (v : Z)        (* coroutine listener i resumed with v *)
+| XCancel (i : nat)              (* ... with await_canceled_exception *)
 | XCall (i : nat) (v : Z)
-| XFree (i : nat).
+| XFree (i : nat)
+| XWRecv (i : nat) (v : Z)       (* blocking listener: .wait() returned v on its own thread *)
+| XWCancel (i : nat).            (* ... threw await_canceled_exception *)
 
-Record xthr := mkT { t_kind : Z; t_limit : nat; t_pc : xpc; t_cnt : nat; t_res : option (option Z) }.
-(* t_kind: 0..3 subscriber kinds, 9 collector.  t_res (blocking listener): Some r = its future is resolved
-   with r (Some v value / None cancelled) *)
+(* per listener (= per thread id): kind 0..3 subscriber kinds, 9 collector; callback limit and call count *)
+Record xlis := mkL { t_kind : Z; t_limit : nat; t_cnt : nat }.
+Definition lis_d : xlis := mkL 0 0 0.
 
 Record xst := mkX {
-  x_thr : list xthr;
+  x_pcs : list xpc;                      (* one per thread *)
+  x_lis : list xlis;
   x_chain : list (nat * bool);
   x_strong : nat;
-  x_cur : option Z;          (* value the state's pointer refers to; None = nullptr *)
-  x_next : Z;                (* next value to emit *)
-  x_ev : list xev            (* event log, in order *)
+  x_cur : option Z;                      (* value the state's pointer refers to; None = nullptr *)
+  x_next : Z;                            (* next value to emit *)
+  x_ev : list xev;                       (* event log, in order *)
+  x_resolved : list (nat * option Z)     (* blocking listeners whose future is ready: (id, Some v | None = cancelled) *)
 }.
 
-Definition set_thr (s : xst) (t : nat) (x : xthr) : xst :=
-  mkX (set_nth (x_thr s) t x) (x_chain s) (x_strong s) (x_cur s) (x_next s) (x_ev s).
-Definition with_pc (x : xthr) (p : xpc) : xthr := mkT (t_kind x) (t_limit x) p (t_cnt x) (t_res x).
+Definition lis_of (s : xst) (i : nat) : xlis := nth i (x_lis s) lis_d.
 Definition set_pc (s : xst) (t : nat) (p : xpc) : xst :=
-  match nth_error (x_thr s) t with Some x => set_thr s t (with_pc x p) | None => s end.
+  mkX (set_nth (x_pcs s) t p) (x_lis s) (x_chain s) (x_strong s) (x_cur s) (x_next s) (x_ev s) (x_resolved s).
+Definition set_lis (s : xst) (i : nat) (x : xlis) : xst :=
+  mkX (x_pcs s) (set_nth (x_lis s) i x) (x_chain s) (x_strong s) (x_cur s) (x_next s) (x_ev s) (x_resolved s).
+Definition set_chain (s : xst) (c : list (nat * bool)) : xst :=
+  mkX (x_pcs s) (x_lis s) c (x_strong s) (x_cur s) (x_next s) (x_ev s) (x_resolved s).
 Definition log (s : xst) (e : list xev) : xst :=
-  mkX (x_thr s) (x_chain s) (x_strong s) (x_cur s) (x_next s) (x_ev s ++ e).
+  mkX (x_pcs s) (x_lis s) (x_chain s) (x_strong s) (x_cur s) (x_next s) (x_ev s ++ e) (x_resolved s).
+
+Fixpoint res_of (l : list (nat * option Z)) (i : nat) : option (option Z) :=
+  match l with [] => None | (j, r) :: t => if Nat.eqb j i then Some r else res_of t i end.
 
 (* what a listener reads when it is resumed: emitter::await_resume *)
 Definition x_read (s : xst) : option Z := if Nat.eqb (x_strong s) 0 then None else x_cur s.
 
 (* blocking listener i's future becomes ready with r and its waiting thread is woken *)
 Definition resolve_fut (s : xst) (i : nat) (r : option Z) : xst :=
-  match nth_error (x_thr s) i with
-  | None => s
-  | Some x => set_thr s i (mkT (t_kind x) (t_limit x) (t_pc x) (t_cnt x) (Some r))
-  end.
+  mkX (x_pcs s) (x_lis s) (x_chain s) (x_strong s) (x_cur s) (x_next s) (x_ev s) (x_resolved s ++ [(i, r)]).
+
+Definition wlog (t : nat) (r : option Z) : xev := match r with Some v => XWRecv t v | None => XWCancel t end.
 
 (* subscriber t is past subscribe: what remains of its thread function *)
 Definition sub_finish (s : xst) (t : nat) : xst :=
-  match nth_error (x_thr s) t with
-  | None => s
-  | Some x =>
-      if t_kind x =? 1 then
-        match t_res x with
-        | Some r => set_pc (log s [match r with Some v => XRecv t v | None => XCancel t end]) t XDone   (* ready(): no wait *)
-        | None => set_pc s t XFlag
-        end
-      else set_pc s t XDone
-  end.
+  if t_kind (lis_of s t) =? 1 then
+    match res_of (x_resolved s) t with
+    | Some r => set_pc (log s [wlog t r]) t XDone   (* ready(): no wait *)
+    | None => set_pc s t XFlag
+    end
+  else set_pc s t XDone.
 
 Definition continue (s : xst) (t : nat) (k : kont) : xst :=
   match k with
@@ -104,17 +108,13 @@ Fixpoint resume_go (s : xst) (t : nat) (sp : list nat) (k : kont) : xst :=
   match sp with
   | [] => continue s t k
   | i :: r =>
-      match nth_error (x_thr s) i with
-      | None => resume_go s t r k
-      | Some x =>
-          let v := x_read s in
-          if t_kind x =? 1 then
-            match t_pc x with
-            | XFlag => set_pc s t (XFutWalk i v r k)
-            | _ => resume_go (resolve_fut s i v) t r k
-            end
-          else resume_go (log s [match v with Some z => XRecv i z | None => XCancel i end]) t r k
-      end
+      let v := x_read s in
+      if t_kind (lis_of s i) =? 1 then
+        match nth i (x_pcs s) XDone with
+        | XFlag => set_pc s t (XFutWalk i v r k)
+        | _ => resume_go (resolve_fut s i v) t r k
+        end
+      else resume_go (log s [match v with Some z => XRecv i z | None => XCancel i end]) t r k
   end.
 
 (* the walk reached the end of its list (or goes on to the next awaiter) *)
@@ -124,54 +124,51 @@ Definition walk_next (s : xst) (t : nat) (w : list (nat * bool)) (sp : list nat)
   | _ => set_pc s t (XWalk w sp k)
   end.
 
+Definition set_strong_cur (s : xst) (n : nat) (c : option Z) : xst :=
+  mkX (x_pcs s) (x_lis s) (x_chain s) n c (x_next s) (x_ev s) (x_resolved s).
+
 (* one strong reference is released by thread t, which then goes on with k *)
 Definition release (s : xst) (t : nat) (k : kont) : xst :=
   let n := Nat.pred (x_strong s) in
-  let s1 := mkX (x_thr s) (x_chain s) n (x_cur s) (x_next s) (x_ev s) in
   if Nat.eqb n 0
-  then set_pc (mkX (x_thr s1) (x_chain s1) n None (x_next s1) (x_ev s1)) t (XRchain k)   (* ~state: _cur_val = nullptr *)
-  else continue s1 t k.
+  then set_pc (set_strong_cur s n None) t (XRchain k)   (* ~state: _cur_val = nullptr *)
+  else continue (set_strong_cur s n (x_cur s)) t k.
 
 Definition xstep (s : xst) (t : nat) : xst :=
-  match nth_error (x_thr s) t with
+  match nth_error (x_pcs s) t with
   | None => s
-  | Some x =>
-      match t_pc x with
+  | Some pc =>
+      match pc with
       | XStep [] => set_pc s t XDone
       | XStep (a :: acts) =>
           if a =? 1 then
             (* collector(v): value stored, pointer set, then notify_awaiters *)
-            set_pc (mkX (x_thr s) (x_chain s) (x_strong s) (Some (x_next s)) (x_next s + 1) (x_ev s)) t (XRchain (KColl acts))
+            set_pc (mkX (x_pcs s) (x_lis s) (x_chain s) (x_strong s) (Some (x_next s)) (x_next s + 1) (x_ev s) (x_resolved s))
+                   t (XRchain (KColl acts))
           else release s t (KColl [])
-      | XAsub =>
-          set_pc (mkX (x_thr s) ((t, t_kind x =? 2) :: x_chain s) (x_strong s) (x_cur s) (x_next s) (x_ev s)) t XApub
+      | XAsub => set_pc (set_chain s ((t, t_kind (lis_of s t) =? 2) :: x_chain s)) t XApub
       | XApub => release s t KSub
       | XFlag =>
-          match t_res x with
-          | Some r => set_pc (log s [match r with Some v => XRecv t v | None => XCancel t end]) t XDone
+          match res_of (x_resolved s) t with
+          | Some r => set_pc (log s [wlog t r]) t XDone
           | None => s
           end
-      | XRchain k =>
-          walk_next (mkX (x_thr s) [] (x_strong s) (x_cur s) (x_next s) (x_ev s)) t (x_chain s) [] k
+      | XRchain k => walk_next (set_chain s []) t (x_chain s) [] k
       | XWalk [] sp k => walk_next s t [] sp k
       | XWalk ((i, cb) :: w) sp k =>
           if cb then
-            match nth_error (x_thr s) i with
-            | None => walk_next s t w sp k
-            | Some y =>
-                match x_read s with
-                | None => walk_next (log s [XFree i]) t w sp k       (* Awt::resume: state gone -> delete this *)
-                | Some v =>
-                    let c := S (t_cnt y) in
-                    let s1 := log (set_thr s i (mkT (t_kind y) (t_limit y) (t_pc y) c (t_res y))) [XCall i v] in
-                    if Nat.eqb (t_limit y) 0 || Nat.ltb c (t_limit y)
-                    then set_pc s1 t (XCbAsub i w sp k)
-                    else walk_next (log s1 [XFree i]) t w sp k
-                end
+            match x_read s with
+            | None => walk_next (log s [XFree i]) t w sp k       (* Awt::resume: state gone -> delete this *)
+            | Some v =>
+                let y := lis_of s i in
+                let c := S (t_cnt y) in
+                let s1 := log (set_lis s i (mkL (t_kind y) (t_limit y) c)) [XCall i v] in
+                if Nat.eqb (t_limit y) 0 || Nat.ltb c (t_limit y)
+                then set_pc s1 t (XCbAsub i w sp k)
+                else walk_next (log s1 [XFree i]) t w sp k
             end
           else walk_next s t w (sp ++ [i]) k
-      | XCbAsub i w sp k =>
-          set_pc (mkX (x_thr s) ((i, true) :: x_chain s) (x_strong s) (x_cur s) (x_next s) (x_ev s)) t (XCbApub i w sp k)
+      | XCbAsub i w sp k => set_pc (set_chain s ((i, true) :: x_chain s)) t (XCbApub i w sp k)
       | XCbApub i w sp k => walk_next s t w sp k
       | XFutWalk i r sp k => resume_go (resolve_fut s i r) t sp k
       | XDone => s
@@ -184,19 +181,19 @@ Definition pc_code (p : xpc) : Z :=
   | XRchain _ => 12 | XWalk _ _ _ | XFutWalk _ _ _ _ => 4 | XDone => 0
   end.
 
-Definition x_enabled_thr (x : xthr) : bool :=
-  match t_pc x with
+Definition x_enabled_pc (s : xst) (t : nat) (p : xpc) : bool :=
+  match p with
   | XDone => false
-  | XFlag => match t_res x with Some _ => true | None => false end
+  | XFlag => match res_of (x_resolved s) t with Some _ => true | None => false end
   | _ => true
   end.
 
-Fixpoint enabled_from (l : list xthr) (k : nat) : list nat :=
+Fixpoint enabled_from (s : xst) (l : list xpc) (k : nat) : list nat :=
   match l with
   | [] => []
-  | x :: r => if x_enabled_thr x then k :: enabled_from r (S k) else enabled_from r (S k)
+  | p :: r => if x_enabled_pc s k p then k :: enabled_from s r (S k) else enabled_from s r (S k)
   end.
-Definition x_enabled (s : xst) : list nat := enabled_from (x_thr s) O.
+Definition x_enabled (s : xst) : list nat := enabled_from s (x_pcs s) O.
 
 (* run: one trace entry (tid, point) per executed step; the controller stops when nothing is enabled;
    schedule exhausted = choice 0, bounded by fuel *)
@@ -209,7 +206,7 @@ Fixpoint xrun (fuel : nat) (s : xst) (sched : list Z) : xst * list (list Z) :=
       | e =>
           let k := match sched with [] => 0 | c :: _ => Z.abs c end in
           let t := nth (Z.to_nat (k mod (zlen e))) e O in
-          let code := match nth_error (x_thr s) t with Some x => pc_code (t_pc x) | None => 0 end in
+          let code := pc_code (nth t (x_pcs s) XDone) in
           let '(s', tr) := xrun f (xstep s t) (tl sched) in
           (s', [Z.of_nat t; code] :: tr)
       end
@@ -219,35 +216,35 @@ Fixpoint xrun (fuel : nat) (s : xst) (sched : list Z) : xst * list (list Z) :=
 Definition truncate_acts (l : list Z) : list Z :=
   (fix go (l : list Z) := match l with [] => [] | a :: r => if a =? 1 then 1 :: go r else [0] end) l.
 
-Definition decode_thr (l : list Z) : list xthr :=
+Definition decode_thr (l : list Z) : list (xpc * xlis) :=
   match l with
   | [1; k; lim] => if (0 <=? k) && (k <=? 3) && (0 <=? lim) && (lim <=? 9)
-                   then [mkT k (Z.to_nat lim) XAsub 0 None] else []
-  | 2 :: acts => [mkT 9 0 (match truncate_acts acts with [] => XDone | a => XStep a end) 0 None]
+                   then [(XAsub, mkL k (Z.to_nat lim) 0)] else []
+  | 2 :: acts => [(match truncate_acts acts with [] => XDone | a => XStep a end, mkL 9 0 0)]
   | _ => []
   end.
 Definition decode_sched (l : list Z) : list Z := match l with 9 :: r => r | _ => [] end.
 
-Definition is_coll (x : xthr) : bool := t_kind x =? 9.
-Definition x_valid (thr : list xthr) : bool :=
+Definition is_coll (x : xpc * xlis) : bool := t_kind (snd x) =? 9.
+Definition x_valid (thr : list (xpc * xlis)) : bool :=
   Nat.eqb (length (filter is_coll thr)) 1 && Nat.leb (length thr) 6.
 
-Definition x_init (thr : list xthr) : xst :=
+Definition x_init (thr : list (xpc * xlis)) : xst :=
   (* the collector's handle + one reference per subscriber (taken before its first yield point) *)
-  mkX thr [] (length thr) None 1 [].
+  mkX (map fst thr) (map snd thr) [] (length thr) None 1 [] [].
 
 Definition encode_xev (e : xev) : list Z :=
   match e with
-  | XRecv i v => [8; 1; Z.of_nat i; v]
-  | XCancel i => [8; 2; Z.of_nat i; 0]
+  | XRecv i v | XWRecv i v => [8; 1; Z.of_nat i; v]
+  | XCancel i | XWCancel i => [8; 2; Z.of_nat i; 0]
   | XCall i v => [8; 3; Z.of_nat i; v]
   | XFree i => [8; 4; Z.of_nat i; 0]
   end.
 
 Definition stuck_line (s : xst) : list (list Z) :=
-  let st := (fix go (l : list xthr) (k : nat) : list Z :=
-               match l with [] => [] | x :: r => match t_pc x with XDone => go r (S k) | _ => Z.of_nat k :: go r (S k) end end)
-            (x_thr s) O in
+  let st := (fix go (l : list xpc) (k : nat) : list Z :=
+               match l with [] => [] | p :: r => match p with XDone => go r (S k) | _ => Z.of_nat k :: go r (S k) end end)
+            (x_pcs s) O in
   match st with [] => [] | _ => [777 :: st] end.
 
 Definition sx_run (ops : list (list Z)) : list (list Z) :=
@@ -308,7 +305,7 @@ Fixpoint cb_expect (i : Z) (lim : nat) (cnt : nat) (tk : list (option Z)) : list
       else [[8; 3; i; j]; [8; 4; i; 0]]
   end.
 
-Definition expect_of (i : Z) (x : xthr) (tk : option (list (option Z))) : list (list Z) :=
+Definition expect_of (i : Z) (x : xlis) (tk : option (list (option Z))) : list (list Z) :=
   match tk with
   | None => []
   | Some tk =>
@@ -333,10 +330,10 @@ Fixpoint lists_eqb (a b : list (list Z)) : bool :=
   | _, _ => false
   end.
 
-Fixpoint index_coll (l : list xthr) (k : Z) : Z :=
+Fixpoint index_coll (l : list (xpc * xlis)) (k : Z) : Z :=
   match l with [] => -1 | x :: r => if is_coll x then k else index_coll r (k + 1) end.
-Definition acts_of (l : list xthr) : list Z :=
-  flat_map (fun x => match t_pc x with XStep a => a | _ => [] end) (filter is_coll l).
+Definition acts_of (l : list (xpc * xlis)) : list Z :=
+  flat_map (fun x => match fst x with XStep a => a | _ => [] end) (filter is_coll l).
 
 Definition sx_oracle (ops obs : list (list Z)) : bool :=
   let thr := flat_map decode_thr ops in
@@ -346,12 +343,12 @@ Definition sx_oracle (ops obs : list (list Z)) : bool :=
   let acts := acts_of thr in
   let nemit := zlen (filter (fun a => a =? 1) acts) in
   let closed := existsb (fun a => a =? 0) acts in
-  let per := (fix go (l : list xthr) (k : Z) : bool :=
+  let per := (fix go (l : list (xpc * xlis)) (k : Z) : bool :=
                 match l with
                 | [] => true
                 | x :: r =>
                     (if is_coll x then lists_eqb (evs_of k obs) []
-                     else lists_eqb (evs_of k obs) (expect_of k x (after_cas tr k coll nemit 0)))
+                     else lists_eqb (evs_of k obs) (expect_of k (snd x) (after_cas tr k coll nemit 0)))
                     && go r (k + 1)
                 end) thr 0 in
   let nodead := negb (existsb (fun l => match l with 777 :: _ => true | _ => false end) obs) in
